@@ -33,7 +33,7 @@ def main():
             'level_claimed': {
                 'category': 'model_checking',
                 'text': getattr(mod, 'LEVEL_TEXT', mod.EXPLANATION),
-                'design_ref': 'DESIGN.md section 4, ' + pid,
+                'design_ref': 'DESIGN.md section 4 (' + pid + ') and section 8 (as built)',
             },
             'level_note': getattr(mod, 'LEVEL_NOTE', '; '.join(mod.ASSUMPTIONS) + '. Outside the bound: ' + mod.OUTSIDE),
             'technique': getattr(mod, 'TECHNIQUE', 'bounded symbolic execution of rustc MIR with z3 (own engine mirsym): solver decides every path; counterexamples replayed natively'),
@@ -47,8 +47,9 @@ def main():
         'version': 1,
         'setup_cmd': './setup.sh',
         'hooks': {
-            'guard': 'kani',
-            'enable': 'no source hooks in /repo: MIR is dumped from a scratch copy of the working tree (cargo +nightly rustc -- -Zunpretty=mir); Kani harnesses, where used, are injected into the scratch copy only under #[cfg(kani)]',
+            'guard': 'none',
+            'enable': 'no hooks or instrumentation were added to /repo: the MIR is dumped from a scratch copy of the working tree (cargo +nightly rustc -- -Zunpretty=mir) and the native '
+                      'drivers depend on /repo by path; the only commits made in /repo are the unguarded "fix:" repairs listed in known_findings.json',
             'baseline_off_cmd': 'cd /repo && cargo test --workspace --no-fail-fast --offline',
             'source_commits': [],
             'add_only': True,
